@@ -236,6 +236,13 @@ fn s_across_fold(b: &B) -> O {
     ]
 }
 
+fn s_clone_into_tick(b: &B) -> O {
+    per_batch(b, |x| vints(ints(x).into_iter().map(|v| v + 10)))
+}
+fn s_clone_into_tick_opt(b: &B) -> O {
+    per_batch(b, |x| ints(x).into_iter().map(|v| vp(v, 5)).collect())
+}
+
 use e4_gen::glue::*;
 
 macro_rules! e {
@@ -286,6 +293,8 @@ pub const ENTRIES: &[Entry] = &[
     e!(t_across_count, x_t_across_count, &[Shape::Int], OutKind::Seq, s_across_count),
     e!(t_across_fold, x_t_across_fold, &[Shape::Int], OutKind::Seq, s_across_fold),
     e!(t_noorder_count, x_t_noorder_count, &[Shape::Int], OutKind::Seq, s_count),
+    e!(t_clone_into_tick, x_t_clone_into_tick, &[Shape::Int], OutKind::Seq, s_clone_into_tick),
+    e!(t_clone_into_tick_opt, x_t_clone_into_tick_opt, &[Shape::Int], OutKind::Seq, s_clone_into_tick_opt),
 ];
 
 /// One simulated run of a C30 entry.
